@@ -138,7 +138,7 @@ class ContractIndex:
         return missing
 
 
-SPEC_FUNCS = {'is_function', 'uf', 'ghost_const', 'same_dict_old', 'is_heap_obj', 'owned', 'take', 'last', 'old', 'implies', 'iff', 'fresh', 'seq', 'dhas', 'dget', 'dlen', 'forall', 'exists', 'type_is',
+SPEC_FUNCS = {'dict_arrays_equal', 'is_namedtuple', 'is_function', 'uf', 'ghost_const', 'same_dict_old', 'is_heap_obj', 'owned', 'take', 'last', 'old', 'implies', 'iff', 'fresh', 'seq', 'dhas', 'dget', 'dlen', 'forall', 'exists', 'type_is',
               'is_str', 'is_int', 'is_none', 'is_bool', 'is_ref', 'calls', 'isinstance', 'len', 'ite', 'cls_of',
               'attr', 'same_dict', 'same_seq', 'sval', 'ival', 'unchanged', 'allocated', 'subseq', 'contains',
               'prefixof', 'suffixof', 'strlen', 'substr', 'str_contains', 'str_indexof', 'int_of', 'empty_seq',
@@ -710,6 +710,9 @@ class SpecMixin:
     def sf_is_function(self, st, node, env, cmod):
         return self._is_cls(st, node, env, cmod, ['function', 'method'])
 
+    def sf_is_namedtuple(self, st, node, env, cmod):
+        return self._is_cls(st, node, env, cmod, ['tuple_namedtuple'])
+
     def sf_is_set(self, st, node, env, cmod):
         return self._is_cls(st, node, env, cmod, ['set', 'frozenset'])
 
@@ -834,6 +837,13 @@ class SpecMixin:
         return BoolTermV(AND(z3.Select(st.DH, ra) == z3.Select(o.DH, rb),
                              self.dict_len(st, ra) == self.dict_len(o, rb),
                              z3.ForAll([k], z3.Implies(self.dict_has(st, ra, k), self.dict_get(st, ra, k) == self.dict_get(o, rb, k)))))
+
+    def sf_dict_arrays_equal(self, st, node, env, cmod):
+        """extensional equality of two dictionaries' has/value arrays (quantifier-free; stronger than same_dict)"""
+        a, b = self._args(st, node, env, cmod)
+        ra, rb = r_of(self.to_term(st, a)), r_of(self.to_term(st, b))
+        return BoolTermV(AND(z3.Select(st.DH, ra) == z3.Select(st.DH, rb), z3.Select(st.DV, ra) == z3.Select(st.DV, rb),
+                             self.dict_len(st, ra) == self.dict_len(st, rb)))
 
     def sf_same_seq(self, st, node, env, cmod):
         a, b = self._args(st, node, env, cmod)
